@@ -267,7 +267,11 @@ FAMILIES = {
     "vhdx": [("fixed", "fixed.vhdx.gz"), ("dynamic", "dynamic.vhdx.gz"), ("dynamic-path", "dynamic.vhdx.gz"),
              ("differencing-path", "differencing.avhdx.gz"), ("differencing-path-parent-present", "differencing.avhdx.gz")],
     "vmdk": [("sesparse", "sesparse.vmdk.gz"), ("sesparse-path", "sesparse.vmdk.gz"), ("flat-descriptor", None),
-             ("flat-descriptor-parent", None), ("flat-descriptor-parent-present", None), ("handle-list", None)],
+             ("flat-descriptor-parent", None), ("flat-descriptor-parent-present", None), ("handle-list", None)] +
+            [(f"flat-descriptor-ct:{ct}:{acc}", None)
+             for ct in ("fullDevice", "partitionedDevice", "vmfsRaw", "vmfsRawDeviceMap", "vmfsPassthroughRawDeviceMap",
+                        "monolithicFlat", "vmfs", "custom", "streamOptimized")
+             for acc in ("RW", "RDONLY")],
     "hdd": [("plain", "plain.hdd"), ("expanding", "expanding.hdd"), ("split", "split.hdd")],
     "qcow2": [("synthetic", None), ("synthetic-64k", None)],
     "vdi": [("synthetic", None)],
@@ -412,6 +416,15 @@ class AuditSuite(Suite):
                 paths["main"] = build_vmdk_descriptor(child, parent=True)
                 txt = open(paths["main"]).read().replace('parentFileNameHint="missing-parent.vmdk"',
                                                          'parentFileNameHint="C:\\vm\\base\\missing-parent.vmdk"')
+                with open(paths["main"], "w") as o:
+                    o.write(txt)
+            elif "-ct:" in variant:
+                # unusual but valid createType values and access modes: the extents must still be opened read-only
+                _, ct, access = variant.split(":")
+                paths["main"] = build_vmdk_descriptor(root)
+                txt = open(paths["main"]).read().replace('createType="twoGbMaxExtentFlat"', f'createType="{ct}"')
+                txt = txt.replace('RW 32 FLAT', f'{access} 32 FLAT').replace('RW 16 FLAT', f'{access} 16 ' +
+                                                                           ("VMFS" if ct.startswith("vmfs") else "FLAT"))
                 with open(paths["main"], "w") as o:
                     o.write(txt)
             else:
